@@ -252,4 +252,142 @@ theorem conformsCheck_sound (enc : Bytes → Option Bytes) (e : Endian) (f : Byt
           rw [this]
           exact List.take_length }
 
+
+/-! ### completeness: the oracle accepts every conforming image -/
+
+theorem wordsFrom_complete (e : Endian) (f : Bytes) : ∀ (t : List Nat) (pos : Nat),
+    (∀ i, (h : i < t.length) → wordAt e f (pos + 4 * i) = some t[i]) →
+    wordsFrom e f pos t.length = some t := by
+  intro t
+  induction t with
+  | nil => intro pos _; rfl
+  | cons x xs ih =>
+    intro pos h
+    have h0 := h 0 (by simp)
+    simp only [Nat.mul_zero, Nat.add_zero, List.getElem_cons_zero] at h0
+    have hr : wordsFrom e f (pos + 4) xs.length = some xs := by
+      apply ih
+      intro i hi
+      have := h (i + 1) (by simp; omega)
+      simp only [List.getElem_cons_succ] at this
+      rw [← this]; congr 1; omega
+    simp [wordsFrom, h0, hr]
+
+theorem pairsFrom_complete (e : Endian) (f : Bytes) : ∀ (t : List (Nat × Nat)) (pos : Nat),
+    (∀ i, (h : i < t.length) →
+      wordAt e f (pos + 8 * i) = some t[i].1 ∧ wordAt e f (pos + 8 * i + 4) = some t[i].2) →
+    pairsFrom e f pos t.length = some t := by
+  intro t
+  induction t with
+  | nil => intro pos _; rfl
+  | cons x xs ih =>
+    intro pos h
+    obtain ⟨h0, h1⟩ := h 0 (by simp)
+    simp only [Nat.mul_zero, Nat.add_zero, List.getElem_cons_zero] at h0 h1
+    have hr : pairsFrom e f (pos + 8) xs.length = some xs := by
+      apply ih
+      intro i hi
+      have := h (i + 1) (by simp; omega)
+      simp only [List.getElem_cons_succ] at this
+      rw [show pos + 8 + 8 * i = pos + 8 * (i + 1) by omega]
+      exact this
+    simp [pairsFrom, h0, h1, hr]
+
+/-- The walk succeeds on the rest of a table whose entries of every address spell that address's
+labels: `pre` = entries already consumed, `seen` their addresses (in any order). -/
+theorem checkLabels_complete (enc : Bytes → Option Bytes) (f : Bytes) (K : Content) (textPos : Nat) :
+    ∀ (post pre : List (Nat × Nat × Bytes)) (seen : List Nat),
+    (∀ x, ((pre ++ post).filter (fun r => r.1 = x)).map (·.2.2) = K.labelsAt x) →
+    (∀ x, countAddr x seen = (pre.filter (fun r => r.1 = x)).length) →
+    (∀ r ∈ post, ∃ b, enc r.2.2 = some b ∧ StrAt f (textPos + r.2.1) b) →
+    checkLabels enc f K textPos seen (post.map (fun r => (r.1, r.2.1))) = true := by
+  intro post
+  induction post with
+  | nil => intro _ _ _ _ _; rfl
+  | cons r rest ih =>
+    intro pre seen hall hseen hstr
+    obtain ⟨b, hb, hs⟩ := hstr r (by simp)
+    have hidx : (K.labelsAt r.1)[countAddr r.1 seen]? = some r.2.2 := by
+      rw [← hall r.1, hseen r.1, List.filter_append, List.map_append,
+        List.getElem?_append_right (by simp), List.length_map, Nat.sub_self, List.filter_cons,
+        if_pos (by simp)]
+      rfl
+    simp only [List.map_cons, checkLabels, hidx, hb, hs, decide_true, Bool.true_and]
+    apply ih (pre ++ [r]) (r.1 :: seen)
+    · intro x; rw [List.append_assoc]; exact hall x
+    · intro x
+      rw [List.filter_append, List.length_append]
+      by_cases hx : r.1 = x
+      · subst hx; rw [countAddr_cons_self, hseen]; simp
+      · rw [countAddr_cons_ne hx, hseen]; simp [hx]
+    · intro q hq; exact hstr q (by simp [hq])
+
+/-- **Completeness of the oracle**: every conforming image is accepted. -/
+theorem conformsCheck_complete (enc : Bytes → Option Bytes) (e : Endian) (f : Bytes) (K : Content)
+    (h : Conforms enc e f K) : conformsCheck enc e f K = none := by
+  obtain ⟨t, hperm, hti⟩ := h.ptrTable
+  obtain ⟨lt, hltl, hlti, hfilter⟩ := h.lblTable
+  have c6 : chkData f K = true := by
+    unfold chkData
+    rw [List.all_eq_true]
+    intro i hi
+    by_cases hc : K.covered i
+    · simp [hc]
+    · have := h.dataEq i (List.mem_range.mp hi) hc
+      simp [hc, this]
+  have c7 : chkPtrTable e f K = true := by
+    unfold chkPtrTable
+    rw [← hperm.length_eq, wordsFrom_complete e f t _ hti]
+    exact List.isPerm_iff.mpr hperm
+  have c8 : chkPtrCells e f K = true := by
+    unfold chkPtrCells
+    rw [List.all_eq_true]
+    intro p hp
+    simp [h.ptrCells p hp]
+  have c9 : chkStrCells enc e f K = true := by
+    unfold chkStrCells
+    rw [List.all_eq_true]
+    intro p hp
+    obtain ⟨v, b, hv, hts, hb, hs⟩ := h.strCells p hp
+    simp [hv, hb, hts, hs]
+  have c10 : chkLabelTable enc e f K = true := by
+    unfold chkLabelTable
+    have hpairs : pairsFrom e f (0x20 + K.data.length + 4 * K.cells.length) K.labelCount
+        = some (lt.map (fun r => (r.1, r.2.1))) := by
+      rw [← hltl]
+      have := pairsFrom_complete e f (lt.map (fun r => (r.1, r.2.1)))
+        (0x20 + K.data.length + 4 * K.cells.length) (by
+          intro i hi
+          rw [List.length_map] at hi
+          obtain ⟨w1, w2, _⟩ := hlti i hi
+          simp only [List.getElem_map]
+          exact ⟨w1, w2⟩)
+      rw [List.length_map] at this
+      exact this
+    rw [hpairs]
+    simp only [Bool.and_eq_true]
+    constructor
+    · apply checkLabels_complete enc f K _ lt [] []
+      · intro x; exact hfilter x
+      · intro x; simp [countAddr]
+      · intro r hr
+        obtain ⟨i, hi, rfl⟩ := List.getElem_of_mem hr
+        exact (hlti i hi).2.2
+    · rw [List.all_eq_true]
+      intro p _
+      simp only [beq_iff_eq, countAddr, List.map_map]
+      rw [← hfilter p.1, List.length_map]
+      have : ∀ l : List (Nat × Nat × Bytes),
+          ((l.map (Prod.fst ∘ fun r => (r.1, r.2.1))).filter (fun y => decide (y = p.1))).length
+            = (l.filter (fun r => decide (r.1 = p.1))).length := by
+        intro l
+        induction l with
+        | nil => rfl
+        | cons q qs ih =>
+          simp only [List.map_cons, Function.comp, List.filter_cons]
+          by_cases hq : q.1 = p.1 <;> simp [hq, ih]
+      exact this lt
+  unfold conformsCheck
+  simp [h.hSize, h.hData, h.hPtrs, h.hLbls, h.fits, c6, c7, c8, c9, c10]
+
 end Mila.Ser
